@@ -60,6 +60,15 @@ def _scenario(rng: random.Random, method_hint: int | None = None) -> dict:
     ns = rng.choice([1, 1, 2, 3])
     cfg["samplers"] = [{"method": (METHODS[method_hint % 6] if (i == 0 and method_hint is not None) else rng.choice(METHODS)),
                         "shared": rng.random() < 0.5} for i in range(ns)]
+    for smp in cfg["samplers"]:
+        # explicit distribution parameters in some runs: they must stay private to that run
+        if rng.random() < 0.3:
+            if smp["method"] == "uniform":
+                smp["options"] = {"loc": -0.25, "scale": 0.5}
+            elif smp["method"] == "truncnorm":
+                smp["options"] = {"a": 0.0, "b": 0.5}
+            elif smp["method"] == "norm":
+                smp["options"] = {"scale": 0.3}
     if ns > 1:
         cfg["gradient"]["samplers"] = [rng.randrange(ns) for _ in range(nv)]
     cfg["gradient"]["seed"] = rng.choice([rng.randint(1, 10**6), [rng.randint(1, 1000), rng.randint(1, 1000)]])
@@ -84,6 +93,12 @@ def generate(seed: int, index: int, tier: str) -> dict:
     rng = random.Random(seed)
     a = _scenario(rng, index)
     others = [_scenario(rng) for _ in range(rng.randint(1, 3))]
+    m0 = a["configs"][0]["samplers"][0]["method"]
+    if m0 in ("uniform", "truncnorm", "norm") and rng.random() < 0.6:
+        # an unrelated run with the same sampler method but its own distribution parameters
+        others[0]["configs"][0]["samplers"][0] = {"method": m0, "shared": False,
+                                                  "options": {"uniform": {"loc": -0.25, "scale": 0.5}, "truncnorm": {"a": 0.0, "b": 0.5}, "norm": {"scale": 0.3}}[m0]}
+        a["configs"][0]["samplers"][0].pop("options", None)
     return {"prop": PROP, "A": a, "others": others, "sched_seed": rng.getrandbits(32), "reuse": rng.random() < 0.5,
             "cross_hash": index % 40 == 7,
             "stratum": a["backend"], "world": a["world"], "configs": a["configs"], "plan": a["plan"]}
